@@ -97,12 +97,16 @@ Definition udp6_csum (s16 d16 udp0 : bytes) : result N :=
   Ok (if c =? 0 then 65535 else c).
 
 (* BuildIPv4UDPFrame: None = Go returned nil *)
-Definition build_ipv4_udp_frame (v : variant) (src dst : option bytes) (sport dport : N) (payload : bytes)
+(* [ovf] is an admissible-choice oracle: when the lengths do not fit the 16-bit fields (no well-formed frame exists) the
+   builder may either refuse (nil; ovf = true) or emit a frame with wrapped length fields (HEAD; ovf = false).  The
+   property quantifies over payloads within the 16-bit length only, where [ovf] has no influence. *)
+Definition build_ipv4_udp_frame (v : variant) (ovf : bool) (src dst : option bytes) (sport dport : N) (payload : bytes)
   : result (option bytes) :=
   match to4 src, to4 dst with
   | Some s4, Some d4 =>
     let ulen := 8 + blen payload in
     let total := 20 + ulen in
+    if (ovf && (65535 <? total))%bool then Ok None else
     hc <- csum_finish (sum_skip (Some 10) 0 false (ip4_header total s4 d4 0)) ;;
     uc <- udp4_csum v s4 d4 (udp_header sport dport ulen 0 ++ payload) ;;
     Ok (Some (ip4_header total s4 d4 hc ++ udp_header sport dport ulen uc ++ payload))
@@ -111,11 +115,12 @@ Definition build_ipv4_udp_frame (v : variant) (src dst : option bytes) (sport dp
 
 Definition ip6_header (plen : N) (src dst : bytes) : bytes :=
   [96; 0; 0; 0] ++ put16 plen ++ [17; 64] ++ src ++ dst.
-Definition build_ipv6_udp_frame (src dst : option bytes) (sport dport : N) (payload : bytes)
+Definition build_ipv6_udp_frame (ovf : bool) (src dst : option bytes) (sport dport : N) (payload : bytes)
   : result (option bytes) :=
   match to16 src, to16 dst with
   | Some s16, Some d16 =>
     let ulen := 8 + blen payload in
+    if (ovf && (65535 <? ulen))%bool then Ok None else
     uc <- udp6_csum s16 d16 (udp_header sport dport ulen 0 ++ payload) ;;
     Ok (Some (ip6_header ulen s16 d16 ++ udp_header sport dport ulen uc ++ payload))
   | _, _ => Ok None
@@ -123,11 +128,12 @@ Definition build_ipv6_udp_frame (src dst : option bytes) (sport dport : N) (payl
 
 (* ------------------------------------------------------------------ pkg/dhcp/packet.go *)
 (* BuildUDPPacket: To4() results are only copied, nil copies nothing *)
-Definition build_udp_packet (src dst : option bytes) (sport dport : N) (payload : bytes) : result bytes :=
+Definition build_udp_packet (ovf : bool) (src dst : option bytes) (sport dport : N) (payload : bytes) : result bytes :=
   let s4 := field 4 (to4 src) in
   let d4 := field 4 (to4 dst) in
   let ulen := 8 + blen payload in
   let total := 20 + ulen in
+  if (ovf && (65535 <? total))%bool then Ok [] else
   hc <- csum_finish (sum_words (ip4_header total s4 d4 0)) ;;
   let pseudo := s4 ++ d4 ++ [0; 17] ++ put16 ulen in
   c <- csum_finish (sum_words (pseudo ++ udp_header sport dport ulen 0 ++ payload)) ;;
@@ -137,11 +143,12 @@ Definition build_udp_packet (src dst : option bytes) (sport dport : N) (payload 
 (* ------------------------------------------------------------------ relay/rewrite.go: WrapIPUDP *)
 (* before bd61667 (Head, Defective): a non-IPv4 source or destination makes udpChecksum index a nil
    slice -> panic.  Repaired: WrapIPUDP returns nil (modelled as the empty byte string) like BuildIPv4UDPFrame does. *)
-Definition wrap_ip_udp (v : variant) (payload : bytes) (src dst : option bytes) : result bytes :=
+Definition wrap_ip_udp (v : variant) (ovf : bool) (payload : bytes) (src dst : option bytes) : result bytes :=
   let ulen := 8 + blen payload in
   let total := 20 + ulen in
   match to4 src, to4 dst with
   | Some s4, Some d4 =>
+    if (ovf && (65535 <? total))%bool then Ok [] else
     hc <- csum_finish (sum_words (ip4_header total s4 d4 0)) ;;
     let udp0 := udp_header 67 68 ulen 0 ++ payload in
     c <- csum_finish (sum_words s4 + sum_words d4 + 17 + blen udp0 + sum_words udp0) ;;
@@ -359,15 +366,15 @@ Definition increment_hops (pkt : bytes) : bytes :=
 Definition relay_forward4 (v : variant) (pkt : bytes) (gi : option bytes) (o82 : bytes) (pol : policy) : result bytes :=
   insert_option82 v (increment_hops (set_giaddr pkt gi)) o82 pol.
 (* server -> client, relay: StripOption82; source = option 54 if present else giaddr; WrapIPUDP *)
-Definition relay_reply4 (v : variant) (reply : bytes) (gi : option bytes) : result bytes :=
+Definition relay_reply4 (v : variant) (ovf : bool) (reply : bytes) (gi : option bytes) : result bytes :=
   r <- strip_option82 v reply ;;
   sid <- get_option4 r 54 ;;
-  wrap_ip_udp v r (match sid with Some s => Some s | None => gi end) (Some [255;255;255;255]).
+  wrap_ip_udp v ovf r (match sid with Some s => Some s | None => gi end) (Some [255;255;255;255]).
 (* server -> client, proxy: StripOption82; RewriteForProxy(giaddr, lease); WrapIPUDP(giaddr) *)
-Definition proxy_reply4 (v : variant) (reply : bytes) (gi : option bytes) (lease : N) : result bytes :=
+Definition proxy_reply4 (v : variant) (ovf : bool) (reply : bytes) (gi : option bytes) (lease : N) : result bytes :=
   r <- strip_option82 v reply ;;
   r2 <- rewrite_for_proxy v r gi lease ;;
-  wrap_ip_udp v r2 gi (Some [255;255;255;255]).
+  wrap_ip_udp v ovf r2 gi (Some [255;255;255;255]).
 
 (* ------------------------------------------------------------------ plugins/dhcp4/local/provider.go *)
 (* optionWriter.addByte: before 35c2549 the length byte was uint8(len(data)) (Defective); HEAD: RFC 3396 split *)
@@ -390,12 +397,14 @@ Definition magic : bytes := [99; 130; 83; 99].
 (* a nil net.IP leaves the zeroed field; a non-nil one is copied through To4() *)
 Definition ip4_field (ip : option bytes) : bytes := field 4 (to4 ip).
 
-Definition build_dhcp4_reply (v : variant) (xid : N) (ciaddr yiaddr siaddr : option bytes) (hw : bytes)
+(* [pad] is an admissible-choice parameter: the number of zero octets (pad options, RFC 2131 s.4.1) the builder appends
+   after END; /repo HEAD appends none. *)
+Definition build_dhcp4_reply (v : variant) (pad : nat) (xid : N) (ciaddr yiaddr siaddr : option bytes) (hw : bytes)
            (msgtype : N) (opts : list (N * bytes)) : result bytes :=
   if (212 <? length hw)%nat then Panic     (* buf[28:28+len] beyond cap 240 *)
   else Ok ([2; 1; 6; 0] ++ put32 xid ++ zeros 4 ++ ip4_field ciaddr ++ ip4_field yiaddr ++ ip4_field siaddr
            ++ zeros 4 ++ firstn 208 (hw ++ zeros 208) ++ magic
-           ++ add_opt v 53 [msgtype mod 256] ++ write_opts v opts ++ [255]).
+           ++ add_opt v 53 [msgtype mod 256] ++ write_opts v opts ++ [255] ++ zeros pad).
 
 (* b01cb01: the address-valued options 1, 3, 6, 54 are not written when their value is empty (non-IPv4 router /
    server-id / DNS entries, nil netmask); before it (Head, Defective) they were written with length 0 *)
@@ -407,14 +416,14 @@ Definition dns_data (dns : list (option bytes)) : bytes :=
 Definition opt_bytes (ip : option bytes) : bytes := match ip with Some b => b | None => [] end.
 
 (* buildResponse (pool path): returns the IPv4/UDP frame *)
-Definition build_response_pool (v : variant) (xid : N) (ciaddr : option bytes) (hw : bytes) (msgtype : N)
+Definition build_response_pool (v : variant) (ovf : bool) (pad : nat) (xid : N) (ciaddr : option bytes) (hw : bytes) (msgtype : N)
            (ip gateway : option bytes) (mask : bytes) (dns : list (option bytes)) (lease : N)
            (extra : list (N * bytes)) : result (option bytes) :=
   let gw4 := opt_bytes (to4 gateway) in
   let opts := addr_opt v 54 gw4 ++ [(51, put32 lease)] ++ addr_opt v 1 mask ++ addr_opt v 3 gw4
               ++ (match dns with [] => [] | _ => addr_opt v 6 (dns_data dns) end) ++ extra in
-  payload <- build_dhcp4_reply v xid ciaddr ip gateway hw msgtype opts ;;
-  build_ipv4_udp_frame v gateway (Some [255;255;255;255]) 67 68 payload.
+  payload <- build_dhcp4_reply v pad xid ciaddr ip gateway hw msgtype opts ;;
+  build_ipv4_udp_frame v ovf gateway (Some [255;255;255;255]) 67 68 payload.
 
 (* encodeClasslessRoutes; a route is (prefix length given to net.CIDRMask(ones,32), destination, next hop).
    CIDRMask returns nil for ones > 32 and Mask.Size() of nil is (0,0).  Destination.IP.To4()[:n] panics only when
@@ -457,7 +466,7 @@ Definition raw_option_valid (o : N * bytes) : bool :=
   negb (existsb (N.eqb (fst o)) [0; 255; 1; 3; 6; 51; 53; 54; 82; 121]) && (length (snd o) <=? 255)%nat.
 
 (* buildResponseFromResolved *)
-Definition build_response_resolved (v : variant) (xid : N) (ciaddr : option bytes) (hw : bytes) (msgtype : N)
+Definition build_response_resolved (v : variant) (ovf : bool) (pad : nat) (xid : N) (ciaddr : option bytes) (hw : bytes) (msgtype : N)
            (yip router server_id : option bytes) (mask : bytes) (dns : list (option bytes)) (lease : N)
            (routes : list (N * option bytes * option bytes)) (extra : list (N * bytes)) : result (option bytes) :=
   let src := match server_id with Some _ => server_id | None => router end in
@@ -468,8 +477,8 @@ Definition build_response_resolved (v : variant) (xid : N) (ciaddr : option byte
               ++ (match dns with [] => [] | _ => addr_opt v 6 (dns_data dns) end)
               ++ (match routes with [] => [] | _ => [(121, rt)] end)
               ++ extra in
-  payload <- build_dhcp4_reply v xid ciaddr yip src hw msgtype opts ;;
-  build_ipv4_udp_frame v src (Some [255;255;255;255]) 67 68 payload.
+  payload <- build_dhcp4_reply v pad xid ciaddr yip src hw msgtype opts ;;
+  build_ipv4_udp_frame v ovf src (Some [255;255;255;255]) 67 68 payload.
 
 (* ------------------------------------------------------------------ reference DHCPv4 decoder (RFC 2131/2132) *)
 (* independent of the Go walkers above: plain RFC option walk over the options area *)
